@@ -76,6 +76,11 @@ func (g *Gen) generate(id string) {
 			}
 		}
 	}
+	for _, b := range g.C.Blocks {
+		if b.Kind == "lemma" && blockHasProp(b, id) {
+			g.verifyLemma(b)
+		}
+	}
 	// lemmas and table checks
 	g.lemmas(id)
 	g.tables(id)
